@@ -181,7 +181,10 @@ def io_case(ctx, i, focus):
         "\u3000".encode(codec)
     except UnicodeEncodeError:
         can_u3000 = False
-    if can_u3000 and r.random() < (0.3 if not sample.isascii() else 0.1):
+    # (not for the stateful ISO-2022-JP in the random texts: Python's codec, which supplies the expected bytes, and
+    # encoding_rs differ on where they switch character sets around runs of U+3000 in longer texts; the deterministic
+    # shrink probe covers that encoding with texts on which both agree)
+    if can_u3000 and encname != "iso-2022-jp" and r.random() < (0.3 if not sample.isascii() else 0.1):
         k = r.choice(["indent", "gaps", "short"])
         if k == "indent":
             text = "\n".join(("\u3000" * r.randint(1, 3) + ln.lstrip(" ")) if ln.startswith(" ") or r.random() < 0.3 else ln for ln in text.split("\n"))
